@@ -18,7 +18,7 @@
 From Coq Require Import ZArith List Bool Lia Permutation.
 Require Import GT.PyBase GT.Data GT.EdTypes GT.EdEngine GT.EdEngineProofs GT.LevModel GT.LevProofs GTgen.EdGen GT.EdParams
                GT.ScriptSpec GT.ScriptModel GT.ListAux GT.ScriptProofs GT.KeyEq GT.MSetProofs GT.EqualSpec GT.EqualProofs
-               GT.MachineSpec GT.MachineGuardSpec GT.MachineModel GT.MachineColl GT.MachineMatch GT.MachineProofs.
+               GT.MachineSpec GT.MachineGuardSpec GT.MachineModel GT.MachinePlist GT.MachineColl GT.MachineMatch GT.MachineProofs.
 Import ListNotations.
 Open Scope Z_scope.
 
@@ -588,3 +588,39 @@ Qed.
 
 Print Assumptions docs_none_contract.
 Print Assumptions guard_refuted.
+
+(* ---------------------------------------------------------------- Apple plist roots (MachinePlist.v):
+   the EditCollection of two PLISTNodes over [Match 0; root edit], whenever the root pair is in the domain of initO and
+   the root edit's initial upper bound fits cost_upper_bound *)
+Theorem plist_contract : forall orc a b s, initP orc a b = Some s -> Contract (UM (sheight s)) s.
+Proof.
+  intros orc a b s H. unfold initP in H. destruct (initO orc a b) as [s0|] eqn:E; [|discriminate].
+  cbv zeta in H. destruct (is_coll s0); [discriminate|].
+  destruct (snd (bndU s0) <=? size a + 1 + size b) eqn:B; [|discriminate]. injection H as <-.
+  apply Z.leb_le in B.
+  assert (G : Good (SColl (coll_init bndU (size a + 1 + size b) [SConst 0; s0]))).
+  { apply good_coll.
+    - constructor; [apply good_const; lia|]. constructor; [apply (initO_good orc a b s0 E)|constructor].
+    - cbn [map bndU snd zsum fold_right]. unfold zsum. cbn [fold_right]. lia. }
+  destruct G as [_ Hc]. apply (Hc _ (le_n _)).
+Qed.
+
+Theorem plist_trace_holds : forall orc a b s, initP orc a b = Some s ->
+  holds_events (trace_of (UM (sheight s)) (S (S (Z.to_nat (width (bndU s))))) s) = true.
+Proof.
+  intros orc a b s H. destruct (plist_contract orc a b s H) as [v Hv].
+  apply (contract_trace_holds (UM (sheight s)) s v); [exact Hv|]. cbn [UM bnd]. lia.
+Qed.
+
+Theorem plist_root_contract : forall orc a b s, initP orc a b = Some s ->
+  Contract (UM (sheight s)) s /\
+  holds_events (trace_of (UM (sheight s)) (S (S (Z.to_nat (width (bndU s))))) s) = true.
+Proof. intros orc a b s H. split; [exact (plist_contract orc a b s H)|exact (plist_trace_holds orc a b s H)]. Qed.
+
+(* not empty: {"ab": "abc", "c": 1} -> {"abx": "abd", "c": 1} as plist documents (root edit: a MultiSetEdit) *)
+Example plist_instance :
+  exists c, initP [] (MSet true [Kvp true (ex_str [97; 98]) (ex_str [97; 98; 99]); ex_kvp true 99 ex_int])
+                     (MSet true [Kvp true (ex_str [97; 98; 120]) (ex_str [97; 98; 100]); ex_kvp true 99 ex_int]) = Some (SColl c) /\
+            length (match k_pend c with Some l => l | None => [] end) = 2%nat.
+Proof. eexists. split; [vm_compute; reflexivity|reflexivity]. Qed.
+Print Assumptions plist_contract.
